@@ -48,6 +48,24 @@ theorem varcovar_symm (n : Nat) (A X : Mat ℝ) (hA : IsSymm n A) (h : IsPinv n 
   rw [isPinv_iff] at h
   exact h.symm_of_symm hA
 
+/-- **The report is a function of the raw outcome**: whatever LAPACK returns, if two n×n
+matrices `V₁`, `V₂` both qualify as `varCovar` (i.e. `−V` is a pseudo-inverse of the
+Hessian), the whole report built from them — robust matrix, the three families, all tables —
+is the same. -/
+theorem report_deterministic (names : List (List Char)) (beta : List ℝ) (bounds : List (Option ℝ × Option ℝ))
+    (H V₁ V₂ B : Mat ℝ) (S : Option (Mat ℝ))
+    (h₁ : IsPinv beta.length H (mneg beta.length V₁)) (h₂ : IsPinv beta.length H (mneg beta.length V₂))
+    (s₁ : Shape beta.length V₁) (s₂ : Shape beta.length V₂) :
+    mkRep names beta bounds V₁ B S = mkRep names beta bounds V₂ B S := by
+  have h := pinv_unique beta.length H _ _ h₁ h₂
+  have e : EqOn beta.length V₁ V₂ := by
+    intro i j hi hj
+    have := h i j hi hj
+    unfold mneg at this
+    rw [ent_build _ _ _ _ _ hi hj, ent_build _ _ _ _ _ hi hj] at this
+    simpa using this
+  rw [eq_of_shape beta.length V₁ V₂ s₁ s₂ e]
+
 /-! ### the three families -/
 
 /-- **Each family is closed**: for the classical, robust and bootstrap family alike, the
@@ -271,6 +289,29 @@ theorem labels_distinct (n : Nat) :
     (∀ a b, a ∈ PLabel.all n → b ∈ PLabel.all n → a.render = b.render → a = b) ∧
     (CLabel.all.map CLabel.render).Nodup ∧ (GLabel.all.map GLabel.render).Nodup :=
   ⟨plabel_render_inj n, clabel_render_nodup, glabel_render_nodup⟩
+
+/-- **Row labels of the compiled table are unambiguous** — proved for parameter names that
+are not statistic labels and do not end in " (std)" / " (ttest)" (`NameOK`): two labels of
+one call that print the same string are the same label, so a row of the data frame has one
+meaning.  (Without the guard the statement is false of the code: see
+`compiled_labels_can_collide`.) -/
+theorem compiled_labels_unambiguous_partial (o : CompileOpts) (a b : RLabel)
+    (ha : a.inTable o) (hb : b.inTable o) (h : a.render = b.render) : a = b :=
+  rlabel_render_inj o a b ha hb h
+
+/-- every label a call produces belongs to the table's label set when the names are `NameOK` -/
+theorem compiled_labels_in_table {α : Type} [NumOps α] (o : CompileOpts) (raw : Raw α) (r : Rep α)
+    (hok : ∀ k, k < r.K → NameOK (r.names.getD k []))
+    (l : RLabel) (c : Cell α) (h : (l, c) ∈ compileColumn o raw r) : l.inTable o :=
+  compile_column_inTable o raw r hok l c h
+
+/-- witness: a parameter called `b (std)` prints like the standard-error row of `b` -/
+theorem compiled_labels_can_collide :
+    (RLabel.val "b (std)".toList).render = (RLabel.std "b".toList).render ∧
+    RLabel.val "b (std)".toList ≠ RLabel.std "b".toList := by
+  constructor
+  · decide
+  · intro h; cases h
 
 /-! ### likelihood-ratio test -/
 
